@@ -2,7 +2,7 @@
 from dataclasses import dataclass
 from typing import Optional, Union
 
-from ..exceptions import odxraise, odxrequire
+from ..exceptions import DecodeError, odxraise, odxrequire
 from ..odxtypes import AtomicOdxType, DataType
 from .compuscale import CompuScale
 from .limit import Limit
@@ -86,6 +86,12 @@ class LinearSegment:
                 DataType.A_INT32,
                 DataType.A_UINT32,
         ]:
+            if result != result or result in (float("inf"), float("-inf")):
+                # NaN and the infinities cannot be represented by integers
+                odxraise(f"Internal value {internal_value!r} cannot be converted to an integer",
+                         DecodeError)
+                return 0
+
             result = round(result)
 
         return result
